@@ -98,29 +98,7 @@ Lemma remove_span : forall P S Q,
 Proof. intros. unfold st_remove. now rewrite splice_span. Qed.
 
 (* ---- _del_tokens: both branches, on a document given with the deleted span exposed -------------- *)
-(* else-branch (start > 0, or everything up to the end): removes get_next(prev_last) .. items[stop-1].last *)
-Lemma del_tokens_else : forall ph (items : list item) P p S Q start stop (it_l : item),
-  NoDup (ids (P ++ p :: S ++ Q)) -> S <> [] -> start < stop ->
-  (start =? 0) && (stop <? zlen items) = false ->
-  prev_last ph items start = Ok (tid p) ->
-  list_get_int items (stop - 1) = Ok it_l -> snd it_l = tid (last S dft) ->
-  del_tokens ph (P ++ p :: S ++ Q) items start stop = (P ++ p :: Q, Ok tt).
-Proof.
-  intros ph items P p S Q start stop it_l Hnd Hne Hlt Hbr Hpl Hget Hlast.
-  unfold del_tokens.
-  destruct (stop <=? start) eqn:E1; [apply Z.leb_le in E1; lia|].
-  rewrite Hbr, Hpl.
-  rewrite get_next_mid by (eapply nodup_mid_l; exact Hnd).
-  destruct S as [|s0 S']; [congruence|]. cbn [app hd_opt option_map].
-  rewrite Hget, Hlast.
-  change (P ++ p :: s0 :: S' ++ Q) with (P ++ p :: (s0 :: S') ++ Q).
-  replace (P ++ p :: (s0 :: S') ++ Q) with ((P ++ [p]) ++ (s0 :: S') ++ Q) by (rewrite <- app_assoc; reflexivity).
-  change (tid s0) with (tid (hd dft (s0 :: S'))).
-  rewrite remove_span.
-  - rewrite <- app_assoc. reflexivity.
-  - rewrite <- app_assoc. exact Hnd.
-  - discriminate.
-Qed.
+(* else-branch: del_tokens_else, at the end of this file (it needs the lemmas about glued neighbours) *)
 
 (* if-branch (start = 0 and items remain after stop): removes items[0].first .. get_prev(items[stop].first);
    the separators before the first item stay, the ones before the next surviving item go *)
@@ -246,7 +224,15 @@ Proof.
   - destruct (prev_last _ _ _); try (intro H; inversion H; reflexivity).
     destruct (st_get_next _ _) as [[t|]|]; try (intro H; inversion H; reflexivity).
     destruct (list_get_int _ _); try (intro H; inversion H; reflexivity).
-    destruct (st_remove _ _ _); intro H; inversion H; reflexivity.
+    cbv zeta.
+    destruct (list_get_int _ _); try (intro H; inversion H; reflexivity).
+    destruct (_ && _).
+    + destruct (split_at _ _) as [[[? ?] after]|]; try (intro H; inversion H; reflexivity).
+      destruct (touches_next after).
+      * destruct (st_get_prev _ _) as [[g|]|]; try (intro H; inversion H; reflexivity).
+        destruct (st_remove _ _ _); intro H; inversion H; reflexivity.
+      * destruct (st_remove _ _ _); intro H; inversion H; reflexivity.
+    + destruct (st_remove _ _ _); intro H; inversion H; reflexivity.
 Qed.
 
 (* single-value mutators: a refusal by detach (the only Python-level refusal once the index is
@@ -595,3 +581,103 @@ Proof. intros P X G p Q cur Hnd Hne Hf Hl Ht. rewrite (remove_right_frame P X G 
 (* a donor is described by its store and span only; the child of a free-standing parent that spans
    the parent's whole store has exactly the description of a free node *)
 Definition spans_whole_store (v : donor) : Prop := detachable v = true.
+
+(* ---- _del_tokens, else-branch (start > 0, or everything up to the end) -------------------------------------------
+   removes get_next(prev_last) .. items[stop-1].last; as repaired, the tokens G between the previous item (or the
+   placeholder) and the first removed item stay when an item follows (stop < len), G is not empty, all of G is blank
+   and the removed span touches what follows it *)
+Lemma self_delim_eq : forall c, self_delim c = self_delimiting c.
+Proof. reflexivity. Qed.
+
+Lemma touches_next_eq : forall l, touches_next l = touches true l.
+Proof. induction l as [|t l IH]; cbn [touches_next touches]; [reflexivity|]. destruct (ttext t); [exact IH|reflexivity]. Qed.
+
+Definition keep_gap (G Q : list tok) : bool :=
+  match G with [] => false | _ => touches_next Q && forallb blank_tok G end.
+
+Lemma st_iter_span : forall P S Q, NoDup (ids (P ++ S ++ Q)) -> S <> [] ->
+  st_iter (tid (hd dft S)) (tid (last S dft)) (P ++ S ++ Q) = S.
+Proof.
+  intros P S Q Hnd Hne. destruct S as [|s0 S']; [congruence|]. unfold st_iter. cbn [hd].
+  change (P ++ (s0 :: S') ++ Q) with (P ++ s0 :: (S' ++ Q)) in *.
+  rewrite split_at_mid by (eapply nodup_mid_l; exact Hnd).
+  destruct S' as [|s1 S1].
+  - cbn [last]. now rewrite Z.eqb_refl.
+  - destruct (@exists_last _ (s1 :: S1)) as [S'' [l El]]; [discriminate|].
+    replace (last (s0 :: s1 :: S1) dft) with l
+      by (rewrite El; change (s0 :: S'' ++ [l]) with ((s0 :: S'') ++ [l]); now rewrite last_last).
+    rewrite El in *.
+    assert (Hneq : tid s0 =? tid l = false).
+    { apply Z.eqb_neq. apply (nodup_ids_neq P s0 S'' l Q). rewrite <- app_assoc in Hnd. exact Hnd. }
+    rewrite Hneq. rewrite <- app_assoc. cbn [app]. rewrite split_at_mid; [reflexivity|].
+    assert (Hnd2 : NoDup (ids (S'' ++ l :: Q))).
+    { apply (nodup_app_r (P ++ [s0])). rewrite <- app_assoc. cbn [app]. rewrite <- app_assoc in Hnd. exact Hnd. }
+    eapply nodup_mid_l; exact Hnd2.
+Qed.
+
+Lemma del_tokens_else : forall ph (items : list item) P p G X Q start stop (it_s it_l : item),
+  NoDup (ids (P ++ p :: G ++ X ++ Q)) -> X <> [] -> start < stop ->
+  (start =? 0) && (stop <? zlen items) = false ->
+  prev_last ph items start = Ok (tid p) ->
+  list_get_int items (stop - 1) = Ok it_l -> snd it_l = tid (last X dft) ->
+  list_get_int items start = Ok it_s -> fst it_s = tid (hd dft X) ->
+  del_tokens ph (P ++ p :: G ++ X ++ Q) items start stop =
+    (P ++ p :: (if (stop <? zlen items) && keep_gap G Q then G else []) ++ Q, Ok tt).
+Proof.
+  intros ph items P p G X Q start stop it_s it_l Hnd Hne Hlt Hbr Hpl Hget Hlast Hs Hf.
+  unfold del_tokens.
+  destruct (stop <=? start) eqn:E1; [apply Z.leb_le in E1; lia|].
+  rewrite Hbr, Hpl.
+  rewrite get_next_mid by (eapply nodup_mid_l; exact Hnd).
+  assert (Hkeep : st_remove (tid (hd dft X)) (tid (last X dft)) (P ++ p :: G ++ X ++ Q) = Ok (P ++ p :: G ++ Q)).
+  { replace (P ++ p :: G ++ X ++ Q) with ((P ++ p :: G) ++ X ++ Q) by (rewrite <- app_assoc; reflexivity).
+    rewrite remove_span; [|rewrite <- app_assoc; exact Hnd|exact Hne]. now rewrite <- app_assoc. }
+  assert (Hall : st_remove (tid (hd dft (G ++ X))) (tid (last X dft)) (P ++ p :: G ++ X ++ Q) = Ok (P ++ p :: Q)).
+  { replace (last X dft) with (last (G ++ X) dft).
+    2:{ destruct (exists_last Hne) as [X' [l El]]. rewrite El, app_assoc, !last_last. reflexivity. }
+    replace (P ++ p :: G ++ X ++ Q) with ((P ++ [p]) ++ (G ++ X) ++ Q)
+      by (repeat (rewrite <- app_assoc; cbn [app]); reflexivity).
+    rewrite remove_span.
+    - now rewrite <- app_assoc.
+    - repeat (rewrite <- app_assoc; cbn [app]). exact Hnd.
+    - intro E. apply app_eq_nil in E. destruct E. contradiction. }
+  rewrite Hget, Hs, Hlast, Hf. cbv zeta.
+  destruct G as [|g0 G'].
+  - (* nothing in front of the first removed item: first_token is item_first *)
+    destruct X as [|x0 X']; [congruence|]. cbn [app hd_opt option_map hd] in *. rewrite Z.eqb_refl, andb_false_r.
+    rewrite Hall. cbn [keep_gap]. rewrite andb_false_r. reflexivity.
+  - cbn [app hd_opt option_map hd] in *.
+    assert (Hneq : tid g0 =? tid (hd dft X) = false).
+    { apply Z.eqb_neq. destruct X as [|x0 X0]; [congruence|]. cbn [hd].
+      apply (nodup_ids_neq (P ++ [p]) g0 G' x0 (X0 ++ Q)). rewrite <- app_assoc. exact Hnd. }
+    rewrite Hneq. cbn [negb]. rewrite andb_true_r.
+    destruct (stop <? zlen items); cbn [andb]; [|rewrite Hall; reflexivity].
+    destruct (exists_last Hne) as [X' [l El]].
+    assert (Hl : last X dft = l) by (rewrite El; apply last_last).
+    assert (Esp : split_at (tid (last X dft)) (P ++ p :: g0 :: G' ++ X ++ Q) = Some (P ++ p :: (g0 :: G') ++ X', l, Q)).
+    { rewrite Hl, El.
+      replace (P ++ p :: g0 :: G' ++ (X' ++ [l]) ++ Q) with ((P ++ p :: (g0 :: G') ++ X') ++ l :: Q)
+        by (repeat (rewrite <- app_assoc; cbn [app]); reflexivity).
+      apply split_at_mid. eapply nodup_mid_l.
+      replace ((P ++ p :: (g0 :: G') ++ X') ++ l :: Q) with (P ++ p :: g0 :: G' ++ X ++ Q)
+        by (rewrite El; repeat (rewrite <- app_assoc; cbn [app]); reflexivity).
+      exact Hnd. }
+    rewrite Esp. cbn [keep_gap].
+    destruct (touches_next Q); cbn [andb]; [|rewrite Hall; reflexivity].
+    assert (Egp : st_get_prev (tid (hd dft X)) (P ++ p :: g0 :: G' ++ X ++ Q) = Ok (Some (tid (last (g0 :: G') dft)))).
+    { destruct X as [|x0 X0]; [congruence|]. cbn [hd].
+      replace (P ++ p :: g0 :: G' ++ (x0 :: X0) ++ Q) with ((P ++ p :: g0 :: G') ++ x0 :: X0 ++ Q)
+        by (repeat (rewrite <- app_assoc; cbn [app]); reflexivity).
+      rewrite get_prev_mid.
+      - change (P ++ p :: g0 :: G') with (P ++ [p] ++ (g0 :: G')). rewrite app_assoc.
+        rewrite last_opt_app by discriminate. reflexivity.
+      - eapply nodup_mid_l. repeat (rewrite <- app_assoc; cbn [app]). exact Hnd. }
+    rewrite Egp.
+    assert (Eit : st_iter (tid g0) (tid (last (g0 :: G') dft)) (P ++ p :: g0 :: G' ++ X ++ Q) = g0 :: G').
+    { change (tid g0) with (tid (hd dft (g0 :: G'))).
+      replace (P ++ p :: g0 :: G' ++ X ++ Q) with ((P ++ [p]) ++ (g0 :: G') ++ X ++ Q)
+        by (repeat (rewrite <- app_assoc; cbn [app]); reflexivity).
+      apply st_iter_span; [|discriminate]. repeat (rewrite <- app_assoc; cbn [app]). exact Hnd. }
+    rewrite Eit.
+    destruct (forallb blank_tok (g0 :: G')); [rewrite Hkeep|rewrite Hall]; reflexivity.
+Qed.
